@@ -9,6 +9,7 @@ VERIFICATION_MSGS = (
     'postcondition not satisfied',
     'precondition not satisfied',
     'precondition not met',
+    'requires not satisfied',
     'assertion failed',
     'assertion failure',
     'possible arithmetic underflow/overflow',
